@@ -44,15 +44,32 @@ type ctrSpec struct {
 	Ports   []portSpec `json:"ports,omitempty"`    // real clean-port wiring only
 	// failing port cleanup. Recording callback: CBFail -1 = the callback returns an error every time, n>0 = the first
 	// n calls fail. Real wiring: PortFile truncated|garbage|empty = what /var/lib/cni/galaxy/port/<id> holds instead
-	// of the ports JSON (crash in mid-write); IptFail = every iptables operation of CleanPortMapping fails.
-	CBFail   int    `json:"cb_fail,omitempty"`
-	PortFile string `json:"port_file,omitempty"`
-	IptFail  bool   `json:"ipt_fail,omitempty"`
+	// of the ports JSON (crash in mid-write); Ipt = iptables operations fail while this container's clean-up runs.
+	CBFail   int       `json:"cb_fail,omitempty"`
+	PortFile string    `json:"port_file,omitempty"`
+	Ipt      *iptFault `json:"ipt_fault,omitempty"`
+}
+
+// iptFault: which iptables operations (DeleteRule / RestoreAll, counted per container across rounds) fail while the
+// container's clean-up runs. permanent: all; first-k: operations 1..K; nth-once: exactly operation N.
+type iptFault struct {
+	Kind string `json:"kind"`
+	K    int    `json:"k,omitempty"`
+	N    int    `json:"n,omitempty"`
+	Text string `json:"text"` // permission-denied | xtables-lock | temporarily-unavailable
+}
+
+func (f *iptFault) transient() bool { return f != nil && f.Kind != "permanent" }
+
+var iptErrText = map[string]string{
+	"permission-denied":       "iptables: Permission denied (you must be root)",
+	"xtables-lock":            "exit status 4: Another app is currently holding the xtables lock. Perhaps you want to use the -w option?",
+	"temporarily-unavailable": "exit status 4: iptables: Resource temporarily unavailable.",
 }
 
 // portCleanMayFail: the port state of this container cannot (or need not) be cleaned; only its files in the gc
 // dirs and IP dirs are owed.
-func (c *ctrSpec) portCleanMayFail() bool { return c.CBFail != 0 || c.PortFile != "" || c.IptFail }
+func (c *ctrSpec) portCleanMayFail() bool { return c.CBFail != 0 || c.PortFile != "" || c.Ipt != nil }
 
 type dirSpec struct {
 	Rel    string `json:"rel"`
@@ -83,6 +100,7 @@ type popSpec struct {
 	Extra        []extraFile `json:"extra_files"`
 	Outage       outageSpec  `json:"outage"`
 	RealCallback bool        `json:"real_callback"`
+	PortDirGC    bool        `json:"port_dir_is_gc_dir,omitempty"` // opt-in: the real port state dir is the last gc dir
 	MaxTail      int         `json:"max_tail"`
 }
 
@@ -391,16 +409,24 @@ func genPop(seed int64, mode string, idx int, tier string, pid int) *popSpec {
 					c.CBFail = 1 + rng.Intn(4)
 				}
 			}
-			if p.RealCallback && len(c.Ports) > 0 && rng.Intn(100) < 45 {
-				switch rng.Intn(4) {
+			if p.RealCallback && len(c.Ports) > 0 && rng.Intn(100) < 85 {
+				text := "xtables-lock"
+				if rng.Intn(3) == 0 {
+					text = "temporarily-unavailable" // PortMappingHandler.withRetry retries this one itself
+				}
+				switch rng.Intn(8) {
 				case 0:
 					c.PortFile = "truncated"
 				case 1:
 					c.PortFile = "garbage"
 				case 2:
 					c.PortFile = "empty"
+				case 3:
+					c.Ipt = &iptFault{Kind: "permanent", Text: "permission-denied"}
+				case 4, 5:
+					c.Ipt = &iptFault{Kind: "first-k", K: 1 + rng.Intn(3), Text: text}
 				default:
-					c.IptFail = true
+					c.Ipt = &iptFault{Kind: "nth-once", N: 1 + rng.Intn(4), Text: text}
 				}
 			}
 		}
